@@ -7,7 +7,7 @@ from typing_extensions import override
 
 from .decodestate import DecodeState
 from .encodestate import EncodeState
-from .exceptions import EncodeError, odxassert, odxraise
+from .exceptions import DecodeError, EncodeError, odxassert, odxraise
 from .field import Field
 from .odxlink import OdxDocFragment
 from .odxtypes import ParameterValue
@@ -80,7 +80,12 @@ class EndOfPduField(Field):
             # here: it says that the item is repeated until the end of
             # the PDU, but it means that DOP of the items that are
             # repeated are identical, not their values
+            orig_cursor = decode_state.cursor_byte_position
             result.append(self.structure.decode_from_pdu(decode_state))
+            if decode_state.cursor_byte_position <= orig_cursor:
+                # avoid looping forever if the items are empty
+                raise DecodeError(f"The items of end-of-pdu field {self.short_name} "
+                                  f"do not consume any data")
 
         decode_state.origin_byte_position = orig_origin
 
